@@ -18,7 +18,7 @@ OWNER = {
     "Wrap": "C01", "NewType": "C08",
     "Qmd": "C16", "QmdHash": "C16",
     "ExecWhileBuilding": "C12", "OneCall": "C12", "Routed": "C12", "CleanAst": "C12", "Title": "C12",
-    "Deliver": "C12", "Raised": "C12",
+    "Deliver": "C12", "Raised": "C12", "FindRoot": "C12", "MixNotRejected": "C12",
 }
 ALSO = {"C11": {"Raised"}, "C16": {"Raised"}, "C12": set()}
 
